@@ -455,7 +455,10 @@ def c10_lev_indef(ctx, case):
 def lev_neg_case(draw):
     cplx = draw(st.booleans())
     p = draw(st.one_of(st.integers(1, 39), st.integers(1, 4)))
-    mode = draw(st.sampled_from(["negated", "negated", "free", "free", "big_r1", "zero"]))
+    mode = draw(st.sampled_from(["negated", "negated", "free", "free", "big_r1", "zero", "singular"]))
+    if mode == "singular":
+        cplx = False        # x/x == 1 exactly in real arithmetic; the complex division rounds, and an exactly singular
+        #                     matrix cannot be told from a barely definite one
     d = {"mode": mode, "cplx": cplx, "p": p, "r0": draw(st.sampled_from(R0S)), "q": draw(st.integers(1, p)),
          "form": draw(st.sampled_from(["array", "list"]))}
     if mode == "negated":
@@ -468,6 +471,12 @@ def lev_neg_case(draw):
 
 def _neg_sequence(case):
     p, r0 = case["p"], case["r0"]
+    if case["mode"] == "singular":
+        # r0 > 0 but |r1| = r0 exactly (a constant or an alternating record): the first prediction error is exactly 0,
+        # the matrix is singular, hence not positive definite
+        sgn = -1.0 if p % 2 else 1.0
+        r = np.array([sgn ** i for i in range(p + 1)], dtype=complex) * r0
+        return r if case["cplx"] else r.real.copy()
     if case["mode"] == "negated":
         r, _a, _P = ref.inverse_levinson(gen.kvec(case["k"]).astype(complex), 1.0)
         r = -r * r0
@@ -494,9 +503,12 @@ def c10_lev_neg(ctx, case):
     ctx.sig_on_exception = sig
     ctx.cls("complex" if case["cplx"] else "real", "form=" + case["form"], _bucket(p), "mode=" + mode)
     ctx.nontrivial(p >= 2 or mode in ("big_r1", "zero"))
-    ctx.check(np.real(r[0]) <= 0 and (mode != "zero" or abs(r[1]) > 0), "generator: zero lag is positive")
-    ev = np.linalg.eigvalsh(_toep(r[:2]))
-    ctx.check(ev[0] < 0, "generator: the 2x2 leading block has no negative eigenvalue")
+    if mode == "singular":
+        ctx.check(np.real(r[0]) > 0 and abs(r[1]) == abs(r[0]), "generator: not a singular sequence")
+    else:
+        ctx.check(np.real(r[0]) <= 0 and (mode != "zero" or abs(r[1]) > 0), "generator: zero lag is positive")
+        ev = np.linalg.eigvalsh(_toep(r[:2]))
+        ctx.check(ev[0] < 0, "generator: the 2x2 leading block has no negative eigenvalue")
     for args, kw, what in (((arg,), {}, "LEVINSON(r)"), ((arg, q), {}, "LEVINSON(r, %d)" % q),
                            ((arg,), {"allow_singularity": False}, "LEVINSON(r, allow_singularity=False)")):
         raised = False
@@ -505,9 +517,9 @@ def c10_lev_neg(ctx, case):
                 spectrum.LEVINSON(*args, **kw)
         except ValueError:
             raised = True
-        ctx.check(raised, "%s did not raise although r[0] = %r <= 0 (order %d, r[1] = %r): no leading block is positive definite"
-                  % (what, r[0], p, r[1]), sig=sig)
-    if mode != "zero":
+        ctx.check(raised, "%s did not raise although %s (order %d, r[0] = %r, r[1] = %r): no leading block of size >= 2 is positive definite"
+                  % (what, "|r[1]| = r[0] (singular)" if mode == "singular" else "r[0] <= 0", p, r[0], r[1]), sig=sig)
+    if mode not in ("zero", "singular"):
         try:
             with np.errstate(all="ignore"):
                 A, _Pl, kk = spectrum.LEVINSON(arg, allow_singularity=True)
@@ -687,6 +699,15 @@ def _toeplitz_body(ctx, case):
             "t0>0" if (np.imag(t0) == 0 and np.real(t0) > 0) else ("t0<0" if np.imag(t0) == 0 else ("Re t0>0" if np.real(t0) > 0 else "Re t0<=0")))
     ctx.nontrivial(M >= 2 and bool(np.any(tc != 0) or np.any(tr != 0)) and bool(np.any(z != 0)))
     ctx.sig_on_exception = {"t0": "Re<=0" if np.real(t0) <= 0 else "Re>0"}
+    if (M + len(case["z"].get("re", [])) + int(case["complex"])) % 3 == 0:
+        # one case in three is preceded, in the same process, by calls that are rightly rejected (an indefinite Hermitian
+        # system, an indefinite autocorrelation): a rejected call must not change what the next call does
+        for bad in (lambda: HERMTOEP(1.0, np.array([0.2, 1.5, 0.1]), np.ones(4)), lambda: spectrum.LEVINSON(np.array([1.0, 0.2, 1.5, 0.1]))):
+            try:
+                bad()
+            except ValueError:
+                pass
+        ctx.cls("after rejected calls")
     if case["form"] == "list":
         X = TOEPLITZ(t0, tc.tolist(), tr.tolist(), z.tolist())
     else:
